@@ -376,3 +376,46 @@ def bool_conjunction(S, out):
             return None
         else:
             return None
+
+
+def forms4(h, name, g, Ta, Tb, Tr, op, exp):
+    """the four by-value / by-reference spellings of a binary operator"""
+    for form, la, lb in (('vv', Ta, Tb), ('vr', Ta, '&' + Tb), ('rv', '&' + Ta, Tb), ('rr', '&' + Ta, '&' + Tb)):
+        h.root('%s__%s' % (name, form), '%s(a: %s, b: %s) -> %s' % (g, la, lb, Tr), 'a %s b' % op, ('value', exp))
+
+
+def forms2(h, name, g, Ta, Tb, Tr, op, exp):
+    """by-value / by-reference receiver with a by-value right operand"""
+    for form, la in (('v', Ta), ('r', '&' + Ta)):
+        h.root('%s__%s' % (name, form), '%s(a: %s, b: %s) -> %s' % (g, la, Tb, Tr), 'a %s b' % op, ('value', exp))
+
+
+def all_panic(run, S, name, rule='K5 out-of-range index panics'):
+    r = run.use_root(S, name)
+    if r is None:
+        run.ob('%s:%s:present' % (run.prop, name), False, rule='root-present', expected='root', found='missing')
+        return False
+    ls = ret_leaves(r['out'])
+    kinds = sorted({l['k'] for g, l in ls})
+    return run.ob('%s:%s:panics' % (run.prop, name), kinds == ['panic'], rule=rule, expected='every path panics', found='leaf kinds %s' % kinds, where=r.get('span'))
+
+
+def run_specs(run, S, h, custom=None):
+    """dispatch the standard spec kinds"""
+    for name, (spec, kw) in h.specs.items():
+        kind = spec[0]
+        if kind == 'value':
+            check_value(run, S, name, spec[1], rule=kw.get('rule', 'K3 ring conformance'))
+        elif kind == 'post':
+            check_value(run, S, name, spec[2] if len(spec) > 2 else None, post=spec[1], rule=kw.get('rule', 'K3 ring conformance'))
+        elif kind == 'panic':
+            all_panic(run, S, name)
+        elif custom and kind in custom:
+            custom[kind](run, S, name, spec, kw)
+        else:
+            raise KeyError(kind)
+
+
+def report_dropped(run, meta):
+    for w, msg in meta.get('dropped', {}).items():
+        run.ob('%s:%s:api-missing' % (run.prop, w), False, rule='api-present', expected='harness wrapper compiles against the current API', found=msg)
